@@ -141,7 +141,8 @@ def run_config(cfg: dict) -> str:
     try:
         kkw = {'custom': handlers_for('C', cfg, base)} if 'C' in present else {}
         KB = types.new_class('KB', (pane.PaneBase,), kkw, kbody)
-        K = types.new_class('K', (KB,), {}, lambda ns: None) if cfg['inh'] == 'T' else KB
+        K = (types.new_class('K', (KB,), {}, lambda ns: None) if cfg['inh'] == 'T'
+             else types.new_class('K', (KB,), {'custom': ()}, lambda ns: None) if cfg['inh'] == 'X' else KB)
         okw = {'custom': handlers_for('E', cfg, base)} if 'E' in present else {}
         Outer = types.new_class('Outer', (pane.PaneBase,), okw, lambda ns: ns.update({'__annotations__': {'k': K}}))
         G = handlers_for('G', cfg, base) if 'G' in present else None
